@@ -4,6 +4,7 @@ package main
 // for tokens / JSON documents.
 
 import (
+	"sync"
 	"strings"
 	"os"
 	"fmt"
@@ -59,8 +60,10 @@ func tagOf(v Value) string {
 
 var debugFixMap map[string]int
 
+var debugFixOnce sync.Once
+
 func debugFix() map[string]int {
-	if debugFixMap == nil {
+	debugFixOnce.Do(func() {
 		debugFixMap = map[string]int{}
 		for _, kv := range strings.Split(os.Getenv("VERIF_FIX"), ",") {
 			if i := strings.IndexByte(kv, '='); i > 0 {
@@ -69,7 +72,7 @@ func debugFix() map[string]int {
 				debugFixMap[kv[:i]] = v
 			}
 		}
-	}
+	})
 	return debugFixMap
 }
 
